@@ -67,6 +67,8 @@ class HostBase:
         self.chars: Dict[Any, SymChar] = {}
         self.len_syms: Dict[int, List[Any]] = {}
         self.conversions: Dict[Any, AV] = {}
+        self.regex_module: Dict[int, str] = {}
+        self.match_text: Dict[int, str] = {}
 
     # ----------------------------------------------------------- utilities
     def raise_(self, name: str, msg: str = "", node: Any = None):
@@ -105,9 +107,11 @@ class HostBase:
             return const_kind(v.value)
         return None
 
-    def len_var(self, key: Any, label: str) -> int:
+    def len_var(self, key: Any, label: str, origin: Any = None) -> int:
         if key not in self.len_vars:
             self.len_vars[key] = self.ctx.new_int(f"len({label})", 0)
+            if origin is not None:
+                self.ctx.len_origin[self.len_vars[key]] = origin
         return self.len_vars[key]
 
     def abstract_nodelist(self, ci: Any, label: str, lo: int, hi: Optional[int], node_cls: Any, value_of=None) -> Inst:
@@ -131,6 +135,7 @@ class HostBase:
                 return Const(len(v.value))
             raise self.raise_("TypeError", f"object of type {type(v.value).__name__} has no len()", node)
         if isinstance(v, SymStr):
+            self.ctx.len_origin.setdefault(v.len_var, v)
             return IntV(Lin.var(v.len_var))
         if isinstance(v, Sym):
             k = self.i.kind_of(v)
@@ -159,7 +164,7 @@ class HostBase:
                 return Const(len(v.items))
             return Term("len", (v,), self.ctx.new_id())
         if isinstance(v, (Opaque, Term)):
-            return IntV(Lin.var(self.len_var(("op", v.id), getattr(v, "label", v.__class__.__name__))))
+            return IntV(Lin.var(self.len_var(("op", v.id), getattr(v, "label", v.__class__.__name__), origin=v)))
         if isinstance(v, (IntV, EnumV, FuncV, BoundMethod, ClassV)):
             raise self.raise_("TypeError", "object has no len()", node)
         raise self.unsupported(node, f"len of {v!r}")
